@@ -281,3 +281,60 @@ def _ck(v):
     if t is frozenset:
         return ("fs", frozenset([_ck(x) for x in v]))
     return ("k", _constkey(v))
+
+
+def code_replace(code, **kw):
+    """code.replace() that also works on 3.7."""
+    if hasattr(code, "replace"):
+        return code.replace(**kw)
+    names = [
+        "co_argcount",
+        "co_kwonlyargcount",
+        "co_nlocals",
+        "co_stacksize",
+        "co_flags",
+        "co_code",
+        "co_consts",
+        "co_names",
+        "co_varnames",
+        "co_filename",
+        "co_name",
+        "co_firstlineno",
+        "co_lnotab",
+        "co_freevars",
+        "co_cellvars",
+    ]
+    vals = [kw.get(n, getattr(code, n)) for n in names]
+    return types.CodeType(*vals)
+
+
+def binding_stub(code):
+    """R-SIG (c): a function with the same header (counts, flags, varnames) whose body
+    returns its parameter slots as a tuple, so that calling it shows how CPython's
+    own argument binding treats each parameter."""
+    import dis as _dis
+
+    n = code.co_argcount + code.co_kwonlyargcount
+    if code.co_flags & CO_VARARGS:
+        n += 1
+    if code.co_flags & CO_VARKEYWORDS:
+        n += 1
+    body = []
+    for i in range(n):
+        body += [_dis.opmap["LOAD_FAST"], i]
+    body += [_dis.opmap["BUILD_TUPLE"], n, _dis.opmap["RETURN_VALUE"], 0]
+    flags = code.co_flags & (CO_VARARGS | CO_VARKEYWORDS) | CO_OPTIMIZED | CO_NEWLOCALS | CO_NOFREE
+    kw = dict(
+        co_code=bytes(body),
+        co_flags=flags,
+        co_consts=(None,),
+        co_names=(),
+        co_varnames=tuple(code.co_varnames[:n]),
+        co_nlocals=n,
+        co_stacksize=n + 1,
+        co_freevars=(),
+        co_cellvars=(),
+    )
+    kw["co_linetable" if PY >= (3, 10) else "co_lnotab"] = b""
+    stub = code_replace(code, **kw)
+    return types.FunctionType(stub, {}), n
